@@ -107,6 +107,38 @@ func Table() map[string]*Property {
 		Note:    "Contains <=> some element Equal to the item; Set/Union/Intersect are the mathematical set operations (lists: first list's order, then new items); Filter keeps exactly the satisfying elements in order (countIf characterisation); TakeWhile the maximal satisfying prefix; All/Any the quantifiers; the predicate is called on elements in order and not after the stopping point (effect trace)",
 	})
 	add(&Property{
+		ID:     "C15",
+		Groups: []Group{{Layer: "O", Funcs: []string{"curry.gen.genFuncFor", "uncurry.gen.genFuncFor", "flip.gen.genFuncFor", "apply.gen.Generate", "tuple.gen.genFuncFor"}, Only: semantic}},
+		Assumptions: append([]string{
+			"arities (parameters, results) are enumerated up to 3; function types are explored with and without parameter names (go/types prints names only when present)",
+			"go/types prints a signature as func(name type, ...) results - the schematic text is rendered the same way (conformance with the real TypeString is not replayed)",
+			"non-variadic signatures only (the property's own restriction); for Uncurry the function returned by f is non-nil",
+		}, oAssume...),
+		Trusted: oTrusted,
+		Note:    "at the return of the innermost emitted closure: exactly one call of f (two for Uncurry: f, then its result) with every closure argument in its position (first two swapped for Flip, last pre-bound for Apply), results returned unchanged; Tuple's closure yields exactly its arguments; capture analysis of user-chosen parameter names",
+	})
+	add(&Property{
+		ID:     "C16",
+		Groups: []Group{{Layer: "O", Funcs: []string{"compose.gen.genError", "fmap.gen.genError", "join.gen.genError", "traverse.gen.genSlice", "toerror.gen.genFuncFor"}, Only: semantic}},
+		Assumptions: append([]string{
+			"arities enumerated: Compose 2-3 stages with up to 2 parameters/results each, the others up to 3",
+			"result types are forked into 'has nil as a value' / 'has not' where derive.Zero's answer depends on it",
+		}, oAssume...),
+		Trusted: oTrusted,
+		Note:    "Compose: stages left to right, each once on the previous results, stop at the first error, exactly that error, zero values otherwise, last results and nil on success (composeSpec over the effect trace); Fmap/Join error forms: g (resp. err) first, f only on success; Traverse: nil slice and the first error, no call after it; ToError: one call, other results passed through, nil iff f reports true, the supplied error otherwise",
+	})
+	add(&Property{
+		ID:     "C17",
+		Groups: []Group{{Layer: "O", Funcs: []string{"fmap.gen.genSlice", "fmap.gen.genString", "join.gen.genSlice", "join.gen.genString"}, Only: semantic}},
+		Assumptions: append([]string{
+			"range over a string yields (byte offset, rune) pairs: offsets strictly increase by 1..4, start at 0, end at len(s); the number of pairs is len([]rune(s)) - this holds for invalid UTF-8 too",
+			"lemma (induction, trusted): sumLen is monotone; strings.Join is the uninterpreted strJoin",
+			"'inputs are not modified' is not an obligation of its own: the emitted functions assign to no parameter element (slices as values)",
+		}, oAssume...),
+		Trusted: oTrusted,
+		Note:    "Fmap over a slice / the runes of a string: same length, i-th result is f of the i-th input, f called once per element in order (in-bounds indexing under the rune-iteration model); Join of slices: nil for nil, length is the sum, elements in order (sumLen characterisation); Join of strings: strings.Join(list, \"\")",
+	})
+	add(&Property{
 		ID:     "C02",
 		Groups: []Group{{Layer: "O", Funcs: []string{"equal.gen.field", "equal.gen.genStatement", "equal.gen.genFunc", "equal.gen.genCurriedFunc"}, Only: semantic}},
 		Assumptions: []string{
